@@ -1719,3 +1719,8 @@ Proof.
   split; [exact Hf|]. split; [reflexivity|]. split; [reflexivity|]. exists (paint_arr sg t idx v).
   split; [reflexivity|]. split; [apply paint_same_shape|]. intros t' i Ht'. apply label_at_paint; [apply frame_ok_range in Hf; lia|exact Ht'].
 Qed.
+
+Lemma mask_of_spec sg t n :
+  (forall p, In p (mask_of sg t n) <-> 0 <= p < Z.of_nat (length (frame_of sg t)) /\ label_at sg t (Z.to_nat p) = n) /\
+  StronglySorted Z.lt (mask_of sg t n) /\ NoDup (mask_of sg t n).
+Proof. split; [intros p; apply mask_of_In|split; [apply mask_of_sorted|apply mask_of_NoDup]]. Qed.
